@@ -59,7 +59,19 @@ thread_local! {
     static TIER: RefCell<Tier> = const { RefCell::new(Tier::Quick) };
 }
 
+/// A value read from the wrong place can render as arbitrary bytes (e.g. a
+/// `bool` holding 7, a string with a bogus length). Everything that goes into
+/// the result line must be valid UTF-8, otherwise the parent's reader thread
+/// takes the line for end-of-file.
+pub fn clean(s: String) -> String {
+    match String::from_utf8(s.into_bytes()) {
+        Ok(s) => s,
+        Err(e) => String::from_utf8_lossy(e.as_bytes()).into_owned(),
+    }
+}
+
 pub fn log(s: String) {
+    let s = clean(s);
     LOG.with(|l| l.borrow_mut().push(s));
 }
 pub fn take_log() -> Vec<String> {
@@ -228,7 +240,7 @@ fn filler_sinks() -> Vec<Item> {
 }
 
 fn log7(v: [String; 7]) {
-    LOG.with(|l| l.borrow_mut().extend(v));
+    LOG.with(|l| l.borrow_mut().extend(v.into_iter().map(clean)));
 }
 
 fn push_fn(items: &mut Vec<Item>, f: Result<Function, roto::RegistrationError>) {
@@ -393,6 +405,7 @@ fn run_loop(cx: &mut Cx, l: &Loop, n: usize, call: &mut dyn FnMut(usize) -> (Str
         }
         let (want, want_log) = (l.want)(i);
         let (got, got_log) = call(i);
+        let got = clean(got);
         cnt += 1;
         h = vcore::util::mix(h, vcore::util::fnv_str(&got));
         if got != want || got_log != want_log {
@@ -656,7 +669,7 @@ pub fn run_g2<T: B>(cx: &mut Cx) {
                     }
                 };
                 let r = func.call_tuple(&mut NoCtx, ());
-                let got = r.show();
+                let got = clean(r.show());
                 drop(r);
                 cnt += 1;
                 h = vcore::util::mix(h, vcore::util::fnv_str(&got));
